@@ -15,8 +15,12 @@ with a table transcribed from ZIP 244 (v5) and from the v6 rules this repository
   SIGHASH the transparent signature digest commits to hash_type, the spent coin's value and
           script and the input's prevout and sequence, and replaces prevouts / amounts / scripts /
           sequences / outputs by the empty-set digests exactly under ANYONECANPAY / SINGLE / NONE
+  SIGHASH4 the v3/v4 signature hash (ZIP 143 / 243): the ZcashSigHash state and the part hashes commit
+          to the prescribed fields in order; hashPrevouts / hashSequence / hashOutputs / hashJoinSplits
+          / hashShieldedSpends / hashShieldedOutputs are each exactly one of {digest, 32 zero bytes}
+          under the prescribed hash-type tests; signature_hash dispatches every version to its function
 Not decided: equality of digest VALUES with an independent implementation, the Orchard /
-Ironwood bundle commitments (external crate), the v4 (ZIP 143/243) signature hash.
+Ironwood bundle commitments (external crate).
 """
 import re
 
@@ -53,7 +57,92 @@ def canon(s, consts):
         s = re.sub(r"BitAnd %d\)" % val, "BitAnd %s)" % name, s) if name in ("ANYONECANPAY", "MASK") else s
     s = re.sub(r"BitAnd MASK\) Eq %d\)" % consts.get("SINGLE", -1), "BitAnd MASK) Eq SINGLE)", s)
     s = re.sub(r"BitAnd MASK\) Eq %d\)" % consts.get("NONE", -1), "BitAnd MASK) Eq NONE)", s)
+    s = re.sub(r"BitAnd MASK\) Ne %d\)" % consts.get("SINGLE", -1), "BitAnd MASK) Ne SINGLE)", s)
+    s = re.sub(r"BitAnd MASK\) Ne %d\)" % consts.get("NONE", -1), "BitAnd MASK) Ne NONE)", s)
     return s
+
+
+CONSTS = {}
+_TOK = re.compile(r"\s*(Input\.hash_type\(\)|Not\(|[A-Za-z_]+|\d+|[()!])")
+
+
+def _ht_eval(txt, ht):
+    """value of a test that mentions nothing but the hash type, for one hash type; None if the text is
+    not of that kind. Grammar: !E | Not(E) | (E op E) | hash_type() | constant."""
+    toks = _TOK.findall(txt)
+    if "".join(toks).replace(" ", "") != txt.replace(" ", ""):
+        return None
+    pos = [0]
+
+    def expr():
+        if pos[0] >= len(toks):
+            raise ValueError
+        t = toks[pos[0]]
+        pos[0] += 1
+        if t == "!":
+            v = expr()
+            return int(not v)
+        if t == "Not(":
+            v = expr()
+            if toks[pos[0]] != ")":
+                raise ValueError
+            pos[0] += 1
+            return int(not v)
+        if t == "(":
+            a = expr()
+            if toks[pos[0]] == ")":
+                pos[0] += 1
+                return a
+            op = toks[pos[0]]
+            pos[0] += 1
+            b_ = expr()
+            if toks[pos[0]] != ")":
+                raise ValueError
+            pos[0] += 1
+            f = {"BitAnd": lambda x, y: x & y, "BitOr": lambda x, y: x | y, "BitXor": lambda x, y: x ^ y,
+                 "Eq": lambda x, y: int(x == y), "Ne": lambda x, y: int(x != y), "Lt": lambda x, y: int(x < y),
+                 "Le": lambda x, y: int(x <= y), "Gt": lambda x, y: int(x > y), "Ge": lambda x, y: int(x >= y)}.get(op)
+            if f is None:
+                raise ValueError
+            return f(a, b_)
+        if t == "Input.hash_type()":
+            return ht
+        if t.isdigit():
+            return int(t)
+        if t in CONSTS:
+            return CONSTS[t]
+        raise ValueError
+    try:
+        v = expr()
+        return v if pos[0] == len(toks) else None
+    except (ValueError, IndexError):
+        return None
+
+
+def ht_canon(guards):
+    """replace the tests on the hash type alone by the SET of hash types they admit (so `x & 0x80 == 0`
+    and `!(x & 0x80 != 0)` are the same guard); other tests stay as text"""
+    rest, sets = [], None
+    for g in guards:
+        if "Input.hash_type()" in g and _ht_eval(g, 0) is not None:
+            sset = frozenset(h for h in range(256) if _ht_eval(g, h))
+            sets = sset if sets is None else (sets & sset)
+        else:
+            rest.append(g)
+    if sets is None:
+        return tuple(rest)
+    acp, mask = CONSTS.get("ANYONECANPAY", 0x80), CONSTS.get("MASK", 0x1f)
+    cls = {}
+    for h in range(256):
+        m = h & mask
+        k = ("ACP" if h & acp else "acp") + "+" + {CONSTS.get("SINGLE", 3): "SINGLE", CONSTS.get("NONE", 2): "NONE"}.get(m, "ALL")
+        cls.setdefault(k, set()).add(h)
+    names = sorted(k for k, v in cls.items() if v <= sets)
+    if set().union(*[cls[k] for k in names]) == set(sets) if names else not sets:
+        txt = "hash_type in {%s}" % ", ".join(names)
+    else:
+        txt = "hash_type in %s" % sorted(sets)
+    return (txt,) + tuple(rest)
 
 
 DROP_GUARD = re.compile(r"Bundle\.vin\.is_empty\(\)|is_coinbase|variant\(TxData\)|variant\(Bundle\?\)")
@@ -79,7 +168,7 @@ def pers_value(w, name, fn):
     return None
 
 
-def the_map(w, fname, ver, consts):
+def the_map(w, fname, ver, consts, keep_all=False):
     fs = w.by_p.get(fname, [])
     if len(fs) != 1:
         return None, None
@@ -99,8 +188,9 @@ def the_map(w, fname, ver, consts):
         for v, g in h["writes"]:
             v = canon(v, consts)
             g = [canon(x, consts) for x in g]
-            g = [x for x in g if KEEP_GUARD.search(x) and not DROP_GUARD.search(x)]
-            ws.append((v, tuple(g)))
+            if not keep_all:
+                g = [x for x in g if KEEP_GUARD.search(x) and not DROP_GUARD.search(x)]
+            ws.append((v, ht_canon(tuple(g))))
         out.append((pv, ws))
     # nested references: personalisation names -> values
     names = {}
@@ -178,8 +268,8 @@ LT = "(Input.index() Lt Bundle.vout.len())"
 SIG_SPEC = [
     ("ZTxTrAmountsHash", [("each(Bundle.authorization.input_amounts(): Zatoshis)", (A,))]),
     ("ZTxTrScriptsHash", [("each(Bundle.authorization.input_scriptpubkeys(): Script.write())", (A,))]),
-    ("Zcash___TxInHash", [("Bundle.vin[?].prevout().write()", (TI,)), ("Input.value()", (TI,)),
-                          ("Input.script_pubkey().write()", (TI,)), ("Bundle.vin[?].sequence()", (TI,))]),
+    ("Zcash___TxInHash", [("Bundle.vin[Input.index()].prevout().write()", (TI,)), ("Input.value()", (TI,)),
+                          ("Input.script_pubkey().write()", (TI,)), ("Bundle.vin[Input.index()].sequence()", (TI,))]),
     ("ZTxIdTranspaHash", [
         ("[Input.hash_type()]", ()),
         ({(A,): "TransparentDigests.prevouts_digest", (AY,): "[].transparent_prevout_hash()"}, ()),
@@ -189,10 +279,117 @@ SIG_SPEC = [
         ({(TI, "!" + SG, "!" + NO): "TransparentDigests.outputs_digest",
           (TI, "!" + SG, NO): "[].transparent_outputs_hash()",
           (TI, SG, "!" + LT): "[].transparent_outputs_hash()",
-          (TI, SG, LT): "[Bundle.vout[?]].transparent_outputs_hash()",
+          (TI, SG, LT): "[Bundle.vout[Input.index()]].transparent_outputs_hash()",
           ("variant(Input)==else",): "TransparentDigests.outputs_digest"}, ()),
         ("#Zcash___TxInHash", ())]),
 ]
+
+
+# ---- ZIP 143 (v3) / ZIP 243 (v4) signature hash --------------------------------------------------
+HT = "Input.hash_type()"
+NOT_ACP = "((%s BitAnd ANYONECANPAY) Eq 0)" % HT
+NOT_SG = "((%s BitAnd MASK) Ne SINGLE)" % HT
+NOT_NO = "((%s BitAnd MASK) Ne NONE)" % HT
+IS_SG = "((%s BitAnd MASK) Eq SINGLE)" % HT
+TB = "TransactionData.transparent_bundle"
+NO_JS = "TransactionData.sprout_bundle.is_none_or(|x| x.joinsplits.is_empty())"
+NO_SS = "TransactionData.sapling_bundle.is_none_or(|x| x.shielded_spends().is_empty())"
+NO_SO = "TransactionData.sapling_bundle.is_none_or(|x| x.shielded_outputs().is_empty())"
+ZERO = "repeat{0}"
+# (value, dominating tests, group): the members of one group are alternatives — exactly one of them
+# is written on every path (checked on the CFG), so the tests of the others fix the remaining one
+V4_HEAD = [
+    ("TransactionData.version.header()", (), None),
+    ("TransactionData.version.version_group_id()", (), None),
+    (TB + ".map_or(None, |x| x.vin).prevout_hash()", (NOT_ACP,), "hashPrevouts"),
+    (ZERO, ("!" + NOT_ACP,), "hashPrevouts"),
+    (TB + ".map_or(None, |x| x.vin).sequence_hash()", (NOT_ACP, NOT_SG, NOT_NO), "hashSequence"),
+    (ZERO, (), "hashSequence"),
+    (TB + ".map_or(None, |x| x.vout).outputs_hash()", (NOT_SG, NOT_NO), "hashOutputs"),
+    (TB + ".0.vout[Input.index()].single_output_hash()",
+     (IS_SG, "variant(%s)==1" % TB, "variant(Input)==1", "Input.index().lt(%s.0.vout.len())" % TB), "hashOutputs"),
+    (ZERO, (IS_SG,), "hashOutputs"),
+    (ZERO, ("!" + IS_SG,), "hashOutputs"),
+    (ZERO, (NO_JS,), "hashJoinSplits"),
+    ("fn:joinsplits_hash(TransactionData.consensus_branch_id, TransactionData.sprout_bundle.joinsplits, "
+     "TransactionData.sprout_bundle.joinsplit_pubkey)", ("!" + NO_JS,), "hashJoinSplits"),
+]
+V4_SAPLING = [
+    (ZERO, (NO_SS,), "hashShieldedSpends"),
+    ("TransactionData.sapling_bundle.shielded_spends().sapling_spends_hash()", ("!" + NO_SS,), "hashShieldedSpends"),
+    (ZERO, (NO_SO,), "hashShieldedOutputs"),
+    ("TransactionData.sapling_bundle.shielded_outputs().sapling_outputs_hash()", ("!" + NO_SO,), "hashShieldedOutputs"),
+]
+V4_TAIL1 = [("TransactionData.lock_time", (), None), ("TransactionData.expiry_height", (), None)]
+V4_TAIL2 = [(HT, (), None), ("#buf0", ("variant(Input)==1",), None)]
+V4_INPUT = [(TB + ".0.vin[Input.index()].prevout().write()", ("variant(Input)==1",)),
+            ("Input.script_code().write()", ("variant(Input)==1",)),
+            ("Input.value()", ("variant(Input)==1",)),
+            (TB + ".0.vin[Input.index()].sequence()", ("variant(Input)==1",))]
+V4_SPEC = {
+    "V3": V4_HEAD + V4_TAIL1 + V4_TAIL2,
+    "V4": V4_HEAD + V4_SAPLING + V4_TAIL1 + [("TransactionData.sapling_value_balance()", (), None)] + V4_TAIL2,
+}
+V4_PARTS = {
+    "prevout_hash": ("ZcashPrevoutHash", ["*TxIn[][*].prevout().write()"]),
+    "sequence_hash": ("ZcashSequencHash", ["*TxIn[][*].sequence()"]),
+    "outputs_hash": ("ZcashOutputsHash", ["*TxOut[][*].write()"]),
+    "single_output_hash": ("ZcashOutputsHash", ["TxOut.write()"]),
+    "joinsplits_hash": ("ZcashJSplitsHash", ["*JsDescription[][*].write()", "u8; 32[]"]),
+    "sapling_spends_hash": ("ZcashSSpendsHash", ["*SpendDescription[][*].cv()", "*SpendDescription[][*].anchor()",
+                                                 "*SpendDescription[][*].nullifier()", "*SpendDescription[][*].rk()",
+                                                 "*SpendDescription[][*].zkproof()"]),
+    "sapling_outputs_hash": ("ZcashSOutputHash", ["*fn:write_output_v4(OutputDescription[][*])"]),
+}
+
+
+def rule_v4(chk, w, consts):
+    fname = T + "sighash_v4::v4_signature_hash"
+    for ver, spec in sorted(V4_SPEC.items()):
+        got, m = the_map(w, fname, ver, consts, keep_all=True)
+        want = [("ZcashSigHash||TransactionData.consensus_branch_id", [(v, g) for v, g, _grp in spec]),
+                ("buf0", V4_INPUT)]
+        compare(chk, "SIGHASH4", "v4_signature_hash@" + ver, got, want)
+        if got is None or m is None:
+            continue
+        hs = m.hashers()
+        bbs = hs[0]["bbs"] if hs else []
+        groups = {}
+        for (v, g, grp), bb in zip(spec, bbs):
+            if grp:
+                groups.setdefault(grp, []).append(bb)
+        for grp, bl in sorted(groups.items()):
+            if len(bbs) == len(spec) and m.exclusive_exhaustive(bl):
+                chk.ok("SIGHASH4", "v4_signature_hash@%s: exactly one of the %d %s alternatives is written on "
+                       "every path" % (ver, len(bl), grp), sample=(grp == "hashOutputs" and ver == "V4"))
+            else:
+                chk.fail("SIGHASH4", "v4_signature_hash@%s/%s/alternatives" % (ver, grp), "the writes of %s are "
+                         "not mutually exclusive and exhaustive alternatives" % grp, m.f.span.loc())
+        if m.result().startswith("#h") and hs and m.result() == "#h%d" % hs[0]["local"]:
+            chk.ok("SIGHASH4", "v4_signature_hash@%s returns the finalised ZcashSigHash state" % ver)
+        else:
+            chk.fail("SIGHASH4", "v4_signature_hash@%s/result" % ver, "returns %s" % m.result(), m.f.span.loc())
+    for name, (pers, vals) in sorted(V4_PARTS.items()):
+        got, m = the_map(w, T + "sighash_v4::" + name, None, consts, keep_all=True)
+        compare(chk, "SIGHASH4", name, got, [(pers, [(v, ()) for v in vals])])
+        if got and m is not None and not (m.result().startswith("#h") and len(got) == 1):
+            chk.fail("SIGHASH4", name + "/result", "%s returns %s, not the hash of its buffer" % (name, m.result()),
+                     m.f.span.loc())
+    # dispatch by version
+    sh = w.by_p.get(T + "sighash::signature_hash", [])
+    if len(sh) != 1:
+        chk.fail("SIGHASH4", "dispatch/missing", "sighash::signature_hash not found")
+        return
+    want = {"V3": "v4_signature_hash", "V4": "v4_signature_hash", "V5": "v5_signature_hash", "V6": "v6_signature_hash"}
+    for ver, fn_ in sorted(want.items()):
+        m = commit.Maps(w, sh[0], ver, V)
+        called = sorted({t.callee.target_p().rsplit("::", 1)[-1] for bb, t in sh[0].body.calls()
+                         if bb in m.feasible and t.callee.indirect is None and
+                         re.search(r"::v\d_signature_hash$", t.callee.target_p())})
+        if called == [fn_]:
+            chk.ok("SIGHASH4", "signature_hash: a %s transaction is hashed by %s" % (ver, fn_))
+        else:
+            chk.fail("SIGHASH4", "dispatch/" + ver, "a %s transaction is hashed by %s" % (ver, called), sh[0].span.loc())
 
 
 def parse_select(v):
@@ -205,7 +402,7 @@ def parse_select(v):
         g, _, val = part.rpartition(" => ")
         gs = tuple(x for x in g.split(" & ") if KEEP_GUARD.search(x) and not DROP_GUARD.search(x)) \
             if g != "otherwise" else ()
-        out[gs] = val
+        out[ht_canon(gs)] = val
     return out
 
 
@@ -249,8 +446,10 @@ def compare(chk, rule, key, got, want, m=None):
         ok_all = len(gl) == len(ww)
         why = "" if ok_all else "writes %d values, the table has %d" % (len(gl), len(ww))
         for i, ((gv, gg), (wv, wg)) in enumerate(zip(gl, ww)):
+            wg = ht_canon(tuple(wg))
             if isinstance(wv, dict):
                 sel = parse_select(gv)
+                wv = {ht_canon(k): v for k, v in wv.items()}
                 if sel != wv:
                     ok_all = False
                     why = why or "value %d is %s, the table has the choice %s" % (i + 1, gv[:200], wv)
@@ -280,23 +479,27 @@ def main(tier):
         "a table transcribed from ZIP 244 and the v6 rules; the root functions' slots and the "
         "transparent signature digest's ANYONECANPAY/SINGLE/NONE choices are compared likewise. "
         "Decides which data each digest commits to, in which order and under which personalisation; "
-        "does not decide digest values, the Orchard/Ironwood bundle commitments (external) or the "
-        "v4 signature hash.")
+        "The v3/v4 signature hash (ZIP 143/243) is compared with its own table the same way, including "
+        "that each conditional part is exactly one of {digest, zeroes}. "
+        "Does not decide digest values or the Orchard/Ironwood bundle commitments (external).")
     chk.trusted = ["rustc MIR", "the table in rules/c04.py transcribed from ZIP 244 and the v6 notes",
                    "blake2b_simd; orchard's bundle commitments"]
     chk.rule("MAP", "each hash state commits to the prescribed values in the prescribed order", floor=26)
     chk.rule("ROOT", "part digests reach the matching slots of the root hashes", floor=8)
     chk.rule("SIGHASH", "transparent signature digest: committed data and flag exclusions", floor=4)
+    chk.rule("SIGHASH4", "ZIP 143/243 signature hash: committed data, flag exclusions, dispatch", floor=27)
     chk.rule("control", "positive controls", floor=2)
     w = zf.World(extract.facts_dir("all"), ["zcash_primitives", "zcash_transparent"])
     consts = {k.rsplit("_", 1)[-1]: v["v"] for k, v in w.consts.items()
               if k.startswith("zcash_transparent::sighash::SIGHASH_") and v.get("v") is not None}
+    CONSTS.update(consts)
     for (name, ver), want in sorted(SPEC.items(), key=lambda x: (x[0][0], str(x[0][1]))):
         fname = (BTC + name[4:]) if name.startswith("BTC:") else T + name
         got, m_ = the_map(w, fname, ver, consts)
         compare(chk, "MAP", "%s%s" % (name, ("@" + ver) if ver else ""), got, want, m_)
     got, _m = the_map(w, T + "sighash_v5::transparent_sig_digest", None, consts)
     compare(chk, "SIGHASH", "transparent_sig_digest", got, SIG_SPEC)
+    rule_v4(chk, w, consts)
     # empty-bundle substitutes in the roots
     for fn_, ver in (("txid::to_hash", "V5"), ("txid::to_hash_v6", None)):
         f = w.by_p.get(T + fn_, [])
